@@ -3,7 +3,7 @@
    get_kernel_address, guess_kernel_base: translated from /repo's C text on every run). *)
 From Coq Require Import ZArith List Bool Sorting.Sorted Sorting.Permutation.
 Import ListNotations.
-Require Import UV.Gen.Kernels UV.C10.Model UV.C10.Proofs UV.C10.Sessions UV.C10.SymCodec UV.C10.Dlopen UV.C10.Plt.
+Require Import UV.Gen.Kernels UV.C10.Model UV.C10.Proofs UV.C10.Sessions UV.C10.SymCodec UV.C10.Dlopen UV.C10.Plt UV.C10.ElfSym.
 Local Open Scope Z_scope.
 
 (* ---------------------------------------------------------------- range lookup *)
@@ -281,6 +281,32 @@ Theorem C10_plt_table_names : forall offset rels prev, (forall r, In r rels -> d
   Forall (fun s => s_size s = PLT_ENTSIZE /\ s_type s = K_ST_PLT_FUNC) (load_dyn_syms offset prev rels).
 Proof. exact load_dyn_syms_names. Qed.
 Print Assumptions C10_plt_table_names.
+
+(* ---------------------------------------------------------------- symbols of an ELF .symtab *)
+(* load_symtab (load_symbol over the file's symbols, sort_symtab) with SYMTAB_FL_ADJ_OFFSET - what
+   record turns into <module>.sym for the main executable and the shared libraries.
+   Every entry is a defined function/ifunc/object symbol with a size, at st_value - first PT_LOAD
+   address (the module-relative address find_symtabs looks up), PIE/shared object or not ... *)
+Theorem C10_symtab_relative : forall vaddr0 syms s,
+  (forall e, In e syms -> loadable e = true -> 0 <= vaddr0 <= e_value e /\ e_value e < W64) ->
+  In s (load_symtab true 0 vaddr0 syms) ->
+  exists e, In e syms /\ loadable e = true /\ s_addr s = e_value e - vaddr0.
+Proof. exact load_symtab_relative. Qed.
+Print Assumptions C10_symtab_relative.
+
+(* ... every such symbol of the file is represented at its address (aliases share one entry) ... *)
+Theorem C10_symtab_complete : forall vaddr0 syms e,
+  (forall e, In e syms -> loadable e = true -> 0 <= vaddr0 <= e_value e /\ e_value e < W64) ->
+  In e syms -> loadable e = true ->
+  exists s, In s (load_symtab true 0 vaddr0 syms) /\ s_addr s = e_value e - vaddr0.
+Proof. exact load_symtab_complete. Qed.
+Print Assumptions C10_symtab_complete.
+
+(* ... and the table holds every address once, in increasing order (what bsearch needs) *)
+Theorem C10_symtab_strictly_sorted : forall adj offset0 vaddr0 syms,
+  strictly_sorted (load_symtab adj offset0 vaddr0 syms) = true.
+Proof. exact load_symtab_strictly_sorted. Qed.
+Print Assumptions C10_symtab_strictly_sorted.
 
 (* ---------------------------------------------------------------- .sym files *)
 (* what save_module_symbol_file writes is read back by load_module_symbol_file as the same
